@@ -387,6 +387,17 @@ template <class T> static void reg_bin(const std::string &tg) {
         return isolated([&]() { do_bin_write(A); return do_bin_read<T, size_t>(r0, r1); }); };
     r["bin.rtd." + tg] = [](Tok &t) { long r0 = t.i(), r1 = t.i(); size_t n, m; std::vector<T> v; parse_dense(t, n, m, v);
         return isolated([&]() { do_bin_writed(n, m, v); return do_bin_readd<T, size_t>(r0, r1); }); };
+    // the same file with a size header WIDER than the index types (size_t n; std::vector<int> ptr, col): every integer must be
+    // read with the width it was written with
+    r["bin.rt32." + tg] = [](Tok &t) { long r0 = t.i(), r1 = t.i(); Mat<T> A = parse_crs<T>(t);
+        return isolated([&]() {
+            { std::ofstream f(tmp_path().c_str(), std::ios::binary | std::ios::trunc);
+              size_t rows = A.n; std::vector<int> p32(A.ptr.begin(), A.ptr.end()), c32(A.col.begin(), A.col.end());
+              amgcl::precondition(io::write(f, rows), "File I/O error."); amgcl::precondition(io::write(f, p32), "File I/O error.");
+              amgcl::precondition(io::write(f, c32), "File I/O error."); amgcl::precondition(io::write(f, A.val), "File I/O error."); }
+            size_t n = 0; std::vector<int> ptr, col; std::vector<T> val;
+            io::read_crs(tmp_path(), n, ptr, col, val, r0, r1);
+            return show_flat((unsigned long long)n, std::vector<ptrdiff_t>(ptr.begin(), ptr.end()), std::vector<ptrdiff_t>(col.begin(), col.end()), val); }); };
     for (int sg = 0; sg < 2; ++sg) {
         std::string s = sg ? "s" : "u";
         auto rd  = [sg](long r0, long r1) { return sg ? do_bin_read<T, ptrdiff_t>(r0, r1) : do_bin_read<T, size_t>(r0, r1); };
